@@ -30,6 +30,22 @@ pub struct Stmt {
     /// cancellation only these are adopted from the implementation
     #[serde(default)]
     pub write_set: Vec<String>,
+    #[serde(default)]
+    pub mode: Mode,
+    /// OutcomeOnly: the statement is wrapped in try/catch, so an error must not escape it
+    #[serde(default)]
+    pub no_raise: bool,
+}
+
+#[derive(Clone, Debug, Serialize, Deserialize, PartialEq, Default)]
+pub enum Mode {
+    /// full refinement check against the reference model
+    #[default]
+    Checked,
+    /// implementation only: no panic, outcome is a value or a catchable error, every variable the
+    /// statement does not name keeps its (model) value; variables in write_set and the output are
+    /// adopted from the implementation
+    OutcomeOnly,
 }
 
 #[derive(Clone, Debug, Serialize, Deserialize, PartialEq)]
@@ -147,6 +163,8 @@ pub enum RunEnd {
 
 #[derive(Clone, Debug, Serialize, Deserialize)]
 pub struct RunResult {
+    /// violations at implementation-only statements after which the session could continue
+    pub nonfatal: Vec<Violation>,
     pub end: RunEnd,
     pub stats: RunStats,
     /// event log: one line per statement (source, outcome, state hash); used by the determinism proof
@@ -155,6 +173,12 @@ pub struct RunResult {
 
 thread_local! {
     static LAST_PANIC: std::cell::RefCell<Option<String>> = std::cell::RefCell::new(None);
+    static IN_EVAL: std::cell::Cell<bool> = std::cell::Cell::new(false);
+}
+
+pub fn trace_enabled() -> bool {
+    static T: std::sync::OnceLock<bool> = std::sync::OnceLock::new();
+    *T.get_or_init(|| std::env::var("NSIM_TRACE").is_ok())
 }
 
 pub fn install_panic_hook() {
@@ -170,6 +194,10 @@ pub fn install_panic_hook() {
             .location()
             .map(|l| format!("{}:{}", l.file(), l.line()))
             .unwrap_or_default();
+        if !IN_EVAL.with(|f| f.get()) {
+            // a panic of the harness itself: never silent
+            eprintln!("HARNESS PANIC: {} @ {}", msg, loc);
+        }
         LAST_PANIC.with(|p| *p.borrow_mut() = Some(format!("{} @ {}", msg, loc)));
     }));
 }
@@ -300,7 +328,15 @@ impl Session {
 
     pub fn observe_var(&self, name: &str) -> Option<String> {
         match Env::try_borrow_get_var(&self.env, name) {
-            Ok(o) => Some(obs::canon_obj(&o)),
+            Ok(o) => {
+                IN_EVAL.with(|f| f.set(true));
+                let c = catch_unwind(AssertUnwindSafe(|| obs::canon_obj(&o)));
+                IN_EVAL.with(|f| f.set(false));
+                match c {
+                    Ok(c) => Some(c),
+                    Err(_) => Some("<panic while iterating>".to_string()),
+                }
+            }
             Err(_) => None,
         }
     }
@@ -312,7 +348,21 @@ pub fn classify_impl(r: Result<Result<Obj, NErr>, Box<dyn std::any::Any + Send>>
             let msg = LAST_PANIC.with(|p| p.borrow_mut().take()).unwrap_or_else(|| "<panic>".to_string());
             (Outcome::Panic(msg), None)
         }
-        Ok(Ok(o)) => (Outcome::Value(obs::canon_obj(&o)), Some(o)),
+        Ok(Ok(o)) => {
+            // materialising a lazy result runs interpreter code too
+            IN_EVAL.with(|f| f.set(true));
+            let c = catch_unwind(AssertUnwindSafe(|| obs::canon_obj(&o)));
+            IN_EVAL.with(|f| f.set(false));
+            match c {
+                Ok(c) => (Outcome::Value(c), Some(o)),
+                Err(_) => {
+                    let msg = LAST_PANIC
+                        .with(|p| p.borrow_mut().take())
+                        .unwrap_or_else(|| "<panic>".to_string());
+                    (Outcome::Panic(format!("while iterating the result: {}", msg)), None)
+                }
+            }
+        }
         Ok(Err(NErr::Throw(e, _))) => {
             let is_hook = match &e {
                 Obj::Seq(noulith::Seq::String(s)) => {
@@ -338,7 +388,8 @@ pub fn execute(script: &Script) -> RunResult {
     let mut sess = Session::new(&script.cfg);
     let mut stats = RunStats::default();
     let mut log = Vec::new();
-    let end = execute_inner(script, &mut sess, &mut stats, &mut log);
+    let mut nonfatal = Vec::new();
+    let end = execute_inner(script, &mut sess, &mut stats, &mut log, &mut nonfatal);
     stats.ticks = verif_hooks::ticks();
     stats.maps_created = verif_hooks::maps_created();
     stats.writer = Some((&sess.writer.0.lock().unwrap().stats).into());
@@ -349,10 +400,16 @@ pub fn execute(script: &Script) -> RunResult {
     verif_hooks::set_fuel(None);
     verif_hooks::set_fault_after(None);
     verif_hooks::set_key_hash_mode(0);
-    RunResult { end, stats, log }
+    RunResult { nonfatal, end, stats, log }
 }
 
-fn execute_inner(script: &Script, sess: &mut Session, stats: &mut RunStats, log: &mut Vec<String>) -> RunEnd {
+fn execute_inner(
+    script: &Script,
+    sess: &mut Session,
+    stats: &mut RunStats,
+    log: &mut Vec<String>,
+    nonfatal: &mut Vec<Violation>,
+) -> RunEnd {
     for (idx, st) in script.stmts.iter().enumerate() {
         let src = render_top(&st.ex);
         // faults
@@ -377,10 +434,15 @@ fn execute_inner(script: &Script, sess: &mut Session, stats: &mut RunStats, log:
                 return RunEnd::Inconclusive(format!("generator: unparsable: {} :: {}", src, e.render(&src)))
             }
         };
+        if trace_enabled() {
+            eprintln!("TRACE {}", src);
+        }
         verif_hooks::set_fuel(Some(script.cfg.fuel));
         verif_hooks::set_fault_after(cancel);
         let env = sess.env.clone();
+        IN_EVAL.with(|f| f.set(true));
         let r = catch_unwind(AssertUnwindSafe(|| evaluate(&env, &expr)));
+        IN_EVAL.with(|f| f.set(false));
         verif_hooks::set_fuel(None);
         let cancel_fired = cancel.is_some() && !verif_hooks::fault_armed();
         verif_hooks::set_fault_after(None);
@@ -390,19 +452,92 @@ fn execute_inner(script: &Script, sess: &mut Session, stats: &mut RunStats, log:
 
         if let Outcome::Panic(msg) = &impl_out {
             log.push(format!("{} => PANIC {}", src, msg));
-            return RunEnd::Violation(Violation {
+            let v = Violation {
                 kind: ViolationKind::Panic,
                 stmt_index: idx,
                 source: src,
                 expected: "value or catchable error".into(),
                 observed: format!("panic: {}", msg),
                 detail: String::new(),
-            });
+            };
+            if st.mode == Mode::OutcomeOnly && st.write_set.is_empty() {
+                // the unwinding released every borrow: the session goes on, and the statements after
+                // it check that it is still usable and that no variable moved
+                nonfatal.push(v);
+                continue;
+            }
+            return RunEnd::Violation(v);
         }
         if impl_out == Outcome::Fuel {
             stats.fuel_out += 1;
             log.push(format!("{} => FUEL", src));
+            if st.mode == Mode::OutcomeOnly && st.write_set.is_empty() {
+                // "did not terminate within budget": never a violation by itself; the session goes on
+                continue;
+            }
             return RunEnd::Inconclusive("implementation ran out of fuel".into());
+        }
+
+        if st.mode == Mode::OutcomeOnly {
+            match &impl_out {
+                Outcome::Value(_) => stats.values += 1,
+                Outcome::Raised => {
+                    stats.raised += 1;
+                    if st.no_raise {
+                        log.push(format!("{} => RAISED THROUGH TRY", src));
+                        nonfatal.push(Violation {
+                            kind: ViolationKind::OutcomeClass,
+                            stmt_index: idx,
+                            source: src.clone(),
+                            expected: "value (the enclosing try/catch receives every error)".into(),
+                            observed: "error escaped the enclosing try/catch".into(),
+                            detail: String::new(),
+                        });
+                    }
+                }
+                Outcome::Cancelled => stats.cancelled += 1,
+                o => {
+                    log.push(format!("{} => ESCAPED {:?}", src, o));
+                    return RunEnd::Violation(Violation {
+                        kind: ViolationKind::OutcomeClass,
+                        stmt_index: idx,
+                        source: src,
+                        expected: "value or catchable error".into(),
+                        observed: format!("{:?}", o),
+                        detail: String::new(),
+                    });
+                }
+            }
+            // adopt the output and the variables the statement names
+            {
+                let w = sess.writer.0.lock().unwrap();
+                sess.model.out = w.accepted.clone();
+                sess.model.out_budget = w.budget;
+            }
+            for name in st.write_set.iter() {
+                match Env::try_borrow_get_var(&sess.env, name) {
+                    Ok(o) => match obs::obj_to_v(&o, &sess.model.struct_names()) {
+                        Some(v) => {
+                            if !sess.model.adopt_var(name, v) {
+                                return RunEnd::Inconclusive(format!("adoption: {} unknown to the model", name));
+                            }
+                        }
+                        None => return RunEnd::Inconclusive(format!("adoption: {} not representable", name)),
+                    },
+                    Err(_) => {}
+                }
+            }
+            match compare_state(sess, idx, &src) {
+                Ok(h) => {
+                    stats.state_hashes.push(h);
+                    log.push(format!("{} => {:?} #{:016x}", src, match &impl_out { Outcome::Value(_) => "V", _ => "E" }, h));
+                }
+                Err(end) => {
+                    log.push(format!("{} => STATE MISMATCH", src));
+                    return end;
+                }
+            }
+            continue;
         }
 
         // model
@@ -462,47 +597,13 @@ fn execute_inner(script: &Script, sess: &mut Session, stats: &mut RunStats, log:
             }
         }
 
-        // state
-        let mut h: u64 = 0xcbf2_9ce4_8422_2325;
-        let names = sess.model_user_vars();
-        for name in names.iter() {
-            let mv = Model::lookup(&sess.model.top, name).unwrap();
-            let ms = match sess.model_canon(&mv) {
-                Ok(s) => s,
-                Err(e) => return RunEnd::Inconclusive(format!("model canon: {}", e)),
-            };
-            let is = sess.observe_var(name).unwrap_or_else(|| "<undeclared>".to_string());
-            fnv(&mut h, name);
-            fnv(&mut h, &ms);
-            if ms != is {
-                log.push(format!("{} => STATE MISMATCH {}", src, name));
-                return RunEnd::Violation(Violation {
-                    kind: ViolationKind::State,
-                    stmt_index: idx,
-                    source: src,
-                    expected: format!("{} = {}", name, ms),
-                    observed: format!("{} = {}", name, is),
-                    detail: String::new(),
-                });
+        let h = match compare_state(sess, idx, &src) {
+            Ok(h) => h,
+            Err(end) => {
+                log.push(format!("{} => STATE/OUTPUT MISMATCH", src));
+                return end;
             }
-        }
-        // output
-        {
-            let w = sess.writer.0.lock().unwrap();
-            if w.accepted != sess.model.out {
-                let a = String::from_utf8_lossy(&w.accepted).to_string();
-                let b = String::from_utf8_lossy(&sess.model.out).to_string();
-                return RunEnd::Violation(Violation {
-                    kind: ViolationKind::Output,
-                    stmt_index: idx,
-                    source: src,
-                    expected: b,
-                    observed: a,
-                    detail: String::new(),
-                });
-            }
-            fnv(&mut h, &format!("{}", w.accepted.len()));
-        }
+        };
         stats.state_hashes.push(h);
         log.push(format!(
             "{} => {} #{:016x}",
@@ -515,4 +616,45 @@ fn execute_inner(script: &Script, sess: &mut Session, stats: &mut RunStats, log:
         ));
     }
     RunEnd::Completed
+}
+
+/// compare every user variable of the model, and the accepted output, with the implementation
+fn compare_state(sess: &mut Session, idx: usize, src: &str) -> Result<u64, RunEnd> {
+    let mut h: u64 = 0xcbf2_9ce4_8422_2325;
+    let names = sess.model_user_vars();
+    for name in names.iter() {
+        let mv = Model::lookup(&sess.model.top, name).unwrap();
+        let ms = match sess.model_canon(&mv) {
+            Ok(s) => s,
+            Err(e) => return Err(RunEnd::Inconclusive(format!("model canon: {}", e))),
+        };
+        let is = sess.observe_var(name).unwrap_or_else(|| "<undeclared>".to_string());
+        fnv(&mut h, name);
+        fnv(&mut h, &ms);
+        if ms != is {
+            return Err(RunEnd::Violation(Violation {
+                kind: ViolationKind::State,
+                stmt_index: idx,
+                source: src.to_string(),
+                expected: format!("{} = {}", name, ms),
+                observed: format!("{} = {}", name, is),
+                detail: String::new(),
+            }));
+        }
+    }
+    let w = sess.writer.0.lock().unwrap();
+    if w.accepted != sess.model.out {
+        let a = String::from_utf8_lossy(&w.accepted).to_string();
+        let b = String::from_utf8_lossy(&sess.model.out).to_string();
+        return Err(RunEnd::Violation(Violation {
+            kind: ViolationKind::Output,
+            stmt_index: idx,
+            source: src.to_string(),
+            expected: b,
+            observed: a,
+            detail: String::new(),
+        }));
+    }
+    fnv(&mut h, &format!("{}", w.accepted.len()));
+    Ok(h)
 }
